@@ -713,7 +713,16 @@ class ExcludeRegionState(object):  # pylint: disable=too-many-instance-attribute
             # of the X, Y or Z values are provided, even if the provided values are identical to the
             # current position.  This matches the Marlin auto-retract detection behavior (at least
             # for Marlin 1.1.9).
-            returnCommands = self._processNonMove(cmd, deltaE)
+            if (deltaE > 0):
+                # As for extruding moves below: a pending recovery must be generated relative to
+                # the extruder position held before this command
+                eAxis.current = priorE
+
+            try:
+                returnCommands = self._processNonMove(cmd, deltaE)
+            finally:
+                if (deltaE > 0):
+                    eAxis.current = extruderPosition
         elif (self.isAnyPointExcluded(*xyPairs)):
             returnCommands = self._processExcludedMove(cmd, deltaE)
             if (self.excluding and not wasExcluding):
